@@ -267,8 +267,24 @@ func ExpectPanic(f func()) (panicked bool) {
 
 // UF / UFInj / FreshBytes exist only for the environment models, which are never
 // executed natively.
-func UF(name string, outLen int, args ...[]byte) []byte    { panic("verifrt.UF called natively") }
-func UFInj(name string, outLen int, args ...[]byte) []byte { panic("verifrt.UFInj called natively") }
+// Natively UF is some fixed function of (name, arguments): harness-defined stubs that are
+// uninterpreted under the engine stay executable in replays (SHA-256 in counter mode).
+func UF(name string, outLen int, args ...[]byte) []byte {
+	h := sha256.New()
+	h.Write([]byte(name))
+	for _, a := range args {
+		h.Write([]byte{byte(len(a) >> 8), byte(len(a))})
+		h.Write(a)
+	}
+	seed := h.Sum(nil)
+	out := make([]byte, 0, outLen+32)
+	for i := 0; len(out) < outLen; i++ {
+		b := sha256.Sum256(append(append([]byte{}, seed...), byte(i), byte(i>>8)))
+		out = append(out, b[:]...)
+	}
+	return out[:outLen]
+}
+func UFInj(name string, outLen int, args ...[]byte) []byte { return UF(name, outLen, args...) }
 
 func FreshBytes(label string, n int) []byte {
 	k := seq[label]
